@@ -272,11 +272,19 @@ fn handle(req: &Value) -> Value {
     };
 
     // ---- parse
+    // (the work counter also advances in the parser: per statement and per source file read)
+    let parse_work_cap = opts.get("work_cap").and_then(|v| v.as_u64()).unwrap_or(0);
+    set_work_cap(parse_work_cap);
     let parsed = guarded(|| parse(Path::new(&main), make_source().into()));
+    set_work_cap(0);
     let (tree, parse_diags) = match parsed {
         Ok((tree, diags)) => (tree, diags),
         Err(p) => {
-            resp.insert("parse".into(), json!({ "panic": p }));
+            if p.to_string().contains("MOS-VERIF work cap exceeded") {
+                resp.insert("parse".into(), json!({ "work_cap_exceeded": parse_work_cap }));
+            } else {
+                resp.insert("parse".into(), json!({ "panic": p }));
+            }
             return Value::Object(resp);
         }
     };
